@@ -42,6 +42,34 @@ class _BinsAccessor:
     def __init__(self, owner):
         self.owner = owner
 
+    @property
+    def constituents(self):
+        """begin / end indices into one buffer holding all the bins' points one after the other."""
+        m, it = self.owner.model, self.owner.interp
+        flat, begins, ends = [], [], []
+        coords: dict = {}
+        for b in self.owner.contents:
+            begins.append(len(flat))
+            flat.extend(items_of(b))
+            ends.append(len(flat))
+            for n, c in (b.members.get('coords') or {}).items():
+                coords.setdefault(n, []).extend(items_of(c))
+        like = self.owner.contents[0] if self.owner.contents else None
+        inner = like.members['dims'][0] if like is not None else 'event'
+        buf = m.array(it, flat, inner, like=like)
+        buf.kind = 'dataarray'
+        buf.members['coords'] = {n: m.array(it, v, inner) for n, v in coords.items()}
+
+        def ints(vals):
+            out = []
+            for v in vals:
+                x = m.new(it, T.Rat.const(v), None, 'int64')
+                x.members['concrete'] = v
+                x.members['dims'] = []
+                out.append(x)
+            return m.array(it, out, self.owner.dim)
+        return {'data': buf, 'begin': ints(begins), 'end': ints(ends), 'dim': inner}
+
     def size(self):
         m, it = self.owner.model, self.owner.interp
         items = []
@@ -116,6 +144,8 @@ class RunsModel(WitnessModel):
     _fresh = 0
 
     def call_ext(self, interp, path, args, kwargs, node):
+        if path in ('scipp.mean', 'scipp.nanmean') and args and isinstance(args[0], SVar) and items_of(args[0]) is not None and not items_of(args[0]):
+            return self.call_method(interp, args[0], 'mean', [], {}, node)
         if path in ('uuid.uuid4', 'uuid.uuid1'):
             RunsModel._fresh += 1
             return f'fresh-label-{RunsModel._fresh}'  # a name no coordinate of the input has
@@ -159,7 +189,14 @@ class RunsModel(WitnessModel):
     def binop(self, interp, op, a, b, node, inplace=False):
         if self._nan(a) or self._nan(b):
             src = a if self._nan(a) else b
-            r = self.new(interp, None, src.unit, src.dtype, why='not a number')
+            ua = a.unit if isinstance(a, SVar) else None
+            ub = b.unit if isinstance(b, SVar) else None
+            unit = src.unit
+            if op in ('mul', 'div', 'truediv'):
+                one = Unit.named('dimensionless')
+                ua, ub = ua if ua is not None else one, ub if ub is not None else one
+                unit = ua * ub if op == 'mul' else ua / ub
+            r = self.new(interp, None, unit, src.dtype, why='not a number')
             r.members['not_a_number'] = True
             r.members['dims'] = []
             return r
@@ -213,8 +250,10 @@ def reference_runs(xs, ys, atol, min_n):
 
 
 def series(pattern, x_steps):
-    """Witness values: flat steps keep y, 'tol' steps change y by exactly atol * dx (atol = 1), 'jump' steps by 10 * dx + 5."""
-    xs, ys = [F(0)], [F(0)]
+    """Witness values around a large offset (y near 10^6, x near 10^9: a tolerance relative to the magnitude of the values is not
+    the documented one): flat steps keep y, 'tol' steps change y by exactly atol * dx (atol = 1), 'above' steps by atol * dx * 1.001,
+    'jump' steps by 10 * dx + 5."""
+    xs, ys = [F(10 ** 9)], [F(10 ** 6)]
     sign = 1
     for gap, dx in zip(pattern, x_steps, strict=False):
         xs.append(xs[-1] + dx)
@@ -223,6 +262,9 @@ def series(pattern, x_steps):
         elif gap == 'tol':
             ys.append(ys[-1] + sign * dx)
             sign = -sign  # alternate, so that the run does not drift
+        elif gap == 'above':
+            ys.append(ys[-1] + sign * dx * F(1001, 1000))
+            sign = -sign
         else:
             ys.append(ys[-1] + sign * (10 * dx + 5))
     return xs, ys
@@ -270,15 +312,15 @@ def run_case(repo, fi, pattern, min_n, x_dtype='float64', min_n_as_variable=Fals
 
 
 def rule(run, repo, tier, where):
-    r6 = run.rule('R6', 'finite domain, decided at exact witness values: for every pattern of flat / exactly-at-tolerance / exceeding steps of series of 2..4 points (thorough: 2..7) '
+    r6 = run.rule('R6', 'finite domain, decided at exact witness values: for every pattern of flat / exactly-at-tolerance / just-above-tolerance / far-exceeding steps (values near 10^6, coordinates near 10^9) of series of 2..4 points (thorough: 2..6) '
                         '(non-uniform coordinates) and every min_n_points, the bins returned are exactly the maximal runs of the definition: in input order, '
                         'none missing, none twice, each with its points and coordinates themselves', 100)
     fi = repo.func('chopper.filtering', 'find_plateaus')
-    n_max = 7 if tier == 'thorough' else 4
+    n_max = 6 if tier == 'thorough' else 4
     bad: dict = {}
     n_cases = n_ret = 0
     for n in range(2, n_max + 1):
-        for pattern in itertools.product(('flat', 'tol', 'jump'), repeat=n - 1):
+        for pattern in itertools.product(('flat', 'tol', 'above', 'jump'), repeat=n - 1):
             for min_n in range(1, n + 1):
                 variants = [('float64', False)]
                 if min_n == 2 and n <= 4:
